@@ -16,7 +16,8 @@ _T = 'src.ir.types.'
 FUNCTIONS = [_T + f for f in (
     'Type.get_supertypes', 'Builtin.is_subtype', 'SimpleClassifier.is_subtype', 'TypeParameter.is_subtype',
     'WildCardType.is_subtype', '_is_type_arg_contained', 'ParameterizedType.is_subtype', 'Function.is_subtype',
-    'ParameterizedFunction.is_subtype', 'NothingType.is_subtype', 'Type.is_assignable', 'Type.not_related',
+    'ParameterizedFunction.is_subtype', 'NothingType.is_subtype', 'Type.is_assignable',
+    'ParameterizedType.is_assignable', 'Type.not_related',
     'Variance.is_covariant', 'Variance.is_contravariant', 'Variance.is_invariant',
     'TypeParameter.is_covariant', 'TypeParameter.is_contravariant', 'TypeParameter.is_invariant',
     'Type.is_parameterized', 'ParameterizedType.is_parameterized', 'TypeConstructor.is_subtype',
@@ -47,8 +48,7 @@ ASSUMPTIONS = [
     'parameter of the class occurs, at any depth, in the matched declared supertype); Occurs is a recursive definition '
     'over the finite type structure and _type_var_occurs_in is proved equal to it',
 ]
-NOT_UNDER_CONTRACT = ['src.ir.types.ParameterizedType.is_assignable',
-                      'the __eq__ overrides (PyEq is uninterpreted)', 'src.ir.types.AbstractType.is_subtype (raises; no instances)']
+NOT_UNDER_CONTRACT = ['the __eq__ overrides are under the identity contracts only (PyEq is uninterpreted in the rules)', 'src.ir.types.AbstractType.is_subtype (raises; no instances)']
 
 
 def _load():
